@@ -192,5 +192,8 @@ pub fn block(b: &Block) -> String {
     }
 }
 pub fn program(p: &Program) -> String {
+    if p.code.is_empty() {
+        return "(program)".into();
+    }
     format!("(program {})", p.code.iter().map(block).collect::<Vec<_>>().join(" "))
 }
